@@ -96,7 +96,7 @@ var bothFns = []string{"Global", "Local"}
 
 func runC08(r *core.Run) {
 	firstCallClause(r, "align.Global", "align.Local")
-	defer racePass(r, "race-align", "Global and Local on shared sequences and a shared matrix")
+	racePass(r, "race-align", "Global and Local on shared sequences and a shared matrix")
 
 	L2 := core.Pick(r, 5, 8)
 	r.Bound("pairs", fmt.Sprintf("all ordered pairs over {A,B}^<=%d; {A,B,C}^<=3 (thorough <=5); shipped matrices over {A,R,W,X}^<=%d and Levenshtein over {a,b,0x00,0xFE}", L2, core.Pick(r, 3, 4)))
